@@ -989,6 +989,9 @@ func compareRecord(s *emulator.Step, lg refrv.Log, d refrv.Def, w uint32, preX [
 	}
 	for key := range wantW {
 		if _, ok := s.RegStores[expr.Key(key)]; !ok {
+			if key == string(expr.IPKey) && m.PC == pre.PC+4 {
+				continue // falling through to the next instruction need not be reported as a jump
+			}
 			return fmt.Sprintf("does not report the write of %s", key)
 		}
 	}
